@@ -3862,13 +3862,19 @@ CLEANUP:
  * undocumentyed functions 
  */
 
-static void check_pointer (
+/* returns non-zero (after reporting it) when the argument is missing: the
+ * caller must not go on with it */
+static int check_pointer (
 	void *p,
 	const char *fct,
 	const char *param)
 {
 	if (p == NULL)
+	{
 		QSlog("NULL %s argument to %s", param, fct);
+		return 1;
+	}
+	return 0;
 }
 
 /* EGLPNUM_TYPENAME_QSline_reader: 
@@ -3879,8 +3885,9 @@ EGLPNUM_TYPENAME_QSLIB_INTERFACE EGLPNUM_TYPENAME_QSline_reader EGLPNUM_TYPENAME
 	void *fct,
 	void *data_src)
 {
-	check_pointer (fct, "EGLPNUM_TYPENAME_QSline_reader_new", "fct");
-	check_pointer (data_src, "EGLPNUM_TYPENAME_QSline_reader_new", "data_src");
+	if (check_pointer (fct, "EGLPNUM_TYPENAME_QSline_reader_new", "fct") ||
+			check_pointer (data_src, "EGLPNUM_TYPENAME_QSline_reader_new", "data_src"))
+		return NULL;
 	return EGLPNUM_TYPENAME_ILLline_reader_new ((EGLPNUM_TYPENAME_qsread_line_fct) fct, data_src);
 }
 
@@ -3888,8 +3895,9 @@ EGLPNUM_TYPENAME_QSLIB_INTERFACE void EGLPNUM_TYPENAME_QSline_reader_set_error_c
 	EGLPNUM_TYPENAME_QSline_reader reader,
 	EGLPNUM_TYPENAME_QSerror_collector collector)
 {
-	check_pointer (reader, "EGLPNUM_TYPENAME_QSline_reader_set_error_collector", "reader");
-	check_pointer (collector, "EGLPNUM_TYPENAME_QSline_reader_set_error_collector", "collector");
+	if (check_pointer (reader, "EGLPNUM_TYPENAME_QSline_reader_set_error_collector", "reader") ||
+			check_pointer (collector, "EGLPNUM_TYPENAME_QSline_reader_set_error_collector", "collector"))
+		return;
 	reader->error_collector = collector;
 }
 
@@ -3904,8 +3912,9 @@ EGLPNUM_TYPENAME_QSLIB_INTERFACE char *EGLPNUM_TYPENAME_QSline_reader_get (
 	char *s,
 	int size)
 {
-	check_pointer (reader, "EGLPNUM_TYPENAME_QSline_reader_get", "reader");
-	check_pointer (s, "EGLPNUM_TYPENAME_QSline_reader_get", "s");
+	if (check_pointer (reader, "EGLPNUM_TYPENAME_QSline_reader_get", "reader") ||
+			check_pointer (s, "EGLPNUM_TYPENAME_QSline_reader_get", "s"))
+		return NULL;
 	return EGLPNUM_TYPENAME_ILLline_reader_get (s, size, reader);
 }
 
@@ -3914,14 +3923,16 @@ EGLPNUM_TYPENAME_QSLIB_INTERFACE EGLPNUM_TYPENAME_QSerror_collector EGLPNUM_TYPE
 	void *fct,
 	void *dest)
 {
-	check_pointer (fct, "EGLPNUM_TYPENAME_QSerror_collector_new", "fct");
+	if (check_pointer (fct, "EGLPNUM_TYPENAME_QSerror_collector_new", "fct"))
+		return NULL;
 	return EGLPNUM_TYPENAME_ILLerror_collector_new ((EGLPNUM_TYPENAME_qsadd_error_fct) fct, dest);
 }
 
 EGLPNUM_TYPENAME_QSLIB_INTERFACE
 	EGLPNUM_TYPENAME_QSerror_collector EGLPNUM_TYPENAME_QSerror_memory_collector_new (EGLPNUM_TYPENAME_QSerror_memory mem)
 {
-	check_pointer (mem, "EGLPNUM_TYPENAME_QSerror_memory_collector_new", "mem");
+	if (check_pointer (mem, "EGLPNUM_TYPENAME_QSerror_memory_collector_new", "mem"))
+		return NULL;
 	return EGLPNUM_TYPENAME_ILLerror_memory_collector_new (mem);
 }
 
@@ -4022,7 +4033,8 @@ EGLPNUM_TYPENAME_QSLIB_INTERFACE void EGLPNUM_TYPENAME_QSset_reporter (
 	if (rval != 0)
 		return;
 
-	check_pointer (fct, "EGLPNUM_TYPENAME_QSset_reporter", "fct");
+	if (check_pointer (fct, "EGLPNUM_TYPENAME_QSset_reporter", "fct"))
+		return;
 
 	ILL_FAILtrue (prob->lp == NULL, "EGLPNUM_TYPENAME_QSprob internal error: prob->lp == NULL");
 	ILLstring_reporter_init (&prob->qslp->reporter,
@@ -4068,35 +4080,40 @@ EGLPNUM_TYPENAME_QSLIB_INTERFACE const char *EGLPNUM_TYPENAME_QSformat_error_typ
 EGLPNUM_TYPENAME_QSLIB_INTERFACE int EGLPNUM_TYPENAME_QSerror_get_type (
 	EGLPNUM_TYPENAME_QSformat_error error)
 {
-	check_pointer (error, "EGLPNUM_TYPENAME_QSerror_get_type", "error");
+	if (check_pointer (error, "EGLPNUM_TYPENAME_QSerror_get_type", "error"))
+		return -1;
 	return error->type;
 }
 
 EGLPNUM_TYPENAME_QSLIB_INTERFACE const char *EGLPNUM_TYPENAME_QSerror_get_desc (
 	EGLPNUM_TYPENAME_QSformat_error error)
 {
-	check_pointer (error, "EGLPNUM_TYPENAME_QSerror_get_desc", "error");
+	if (check_pointer (error, "EGLPNUM_TYPENAME_QSerror_get_desc", "error"))
+		return NULL;
 	return error->desc;
 }
 
 EGLPNUM_TYPENAME_QSLIB_INTERFACE int EGLPNUM_TYPENAME_QSerror_get_line_number (
 	EGLPNUM_TYPENAME_QSformat_error error)
 {
-	check_pointer (error, "EGLPNUM_TYPENAME_QSerror_get_line_number", "error");
+	if (check_pointer (error, "EGLPNUM_TYPENAME_QSerror_get_line_number", "error"))
+		return -1;
 	return error->lineNumber;
 }
 
 EGLPNUM_TYPENAME_QSLIB_INTERFACE int EGLPNUM_TYPENAME_QSerror_get_pos (
 	EGLPNUM_TYPENAME_QSformat_error error)
 {
-	check_pointer (error, "EGLPNUM_TYPENAME_QSerror_get_pos", "error");
+	if (check_pointer (error, "EGLPNUM_TYPENAME_QSerror_get_pos", "error"))
+		return -1;
 	return error->at;
 }
 
 EGLPNUM_TYPENAME_QSLIB_INTERFACE const char *EGLPNUM_TYPENAME_QSerror_get_line (
 	EGLPNUM_TYPENAME_QSformat_error error)
 {
-	check_pointer (error, "EGLPNUM_TYPENAME_QSerror_get_line", "error");
+	if (check_pointer (error, "EGLPNUM_TYPENAME_QSerror_get_line", "error"))
+		return NULL;
 	return error->theLine;
 }
 
@@ -4104,7 +4121,8 @@ EGLPNUM_TYPENAME_QSLIB_INTERFACE void EGLPNUM_TYPENAME_QSerror_print (
 	FILE * f,
 	EGLPNUM_TYPENAME_QSformat_error error)
 {
-	check_pointer (f, "EGLPNUM_TYPENAME_QSerror_print", "f");
+	if (check_pointer (f, "EGLPNUM_TYPENAME_QSerror_print", "f"))
+		return;
 	if (error == NULL)
 	{
 		QSlog("0");
@@ -4135,7 +4153,8 @@ EGLPNUM_TYPENAME_QSLIB_INTERFACE void EGLPNUM_TYPENAME_QSerror_memory_free (
 EGLPNUM_TYPENAME_QSLIB_INTERFACE int EGLPNUM_TYPENAME_QSerror_memory_get_nerrors (
 	EGLPNUM_TYPENAME_QSerror_memory mem)
 {
-	check_pointer (mem, "EGLPNUM_TYPENAME_QSerror_memory_get_nerrors", "mem");
+	if (check_pointer (mem, "EGLPNUM_TYPENAME_QSerror_memory_get_nerrors", "mem"))
+		return 0;
 	return mem->nerror;
 }
 
@@ -4143,7 +4162,8 @@ EGLPNUM_TYPENAME_QSLIB_INTERFACE int EGLPNUM_TYPENAME_QSerror_memory_get_nof (
 	EGLPNUM_TYPENAME_QSerror_memory mem,
 	int type)
 {
-	check_pointer (mem, "EGLPNUM_TYPENAME_QSerror_memory_get_nerrors", "mem");
+	if (check_pointer (mem, "EGLPNUM_TYPENAME_QSerror_memory_get_nerrors", "mem"))
+		return 0;
 	if (0 <= type && type < QS_INPUT_NERROR)
 	{
 		return mem->has_error[type];
@@ -4158,14 +4178,15 @@ EGLPNUM_TYPENAME_QSLIB_INTERFACE int EGLPNUM_TYPENAME_QSerror_memory_get_nof (
 EGLPNUM_TYPENAME_QSLIB_INTERFACE EGLPNUM_TYPENAME_QSformat_error EGLPNUM_TYPENAME_QSerror_memory_get_last_error (
 	EGLPNUM_TYPENAME_QSerror_memory mem)
 {
-	check_pointer (mem, "QSerror_memory_get_last_errors", "mem");
+	if (check_pointer (mem, "QSerror_memory_get_last_errors", "mem"))
+		return NULL;
 	return mem->error_list;
 }
 
 EGLPNUM_TYPENAME_QSLIB_INTERFACE EGLPNUM_TYPENAME_QSformat_error EGLPNUM_TYPENAME_QSerror_memory_get_prev_error (
 	EGLPNUM_TYPENAME_QSformat_error e)
 {
-	check_pointer (e, "QSerror_memory_get_prev_errors", "e");
+	(void) check_pointer (e, "QSerror_memory_get_prev_errors", "e");
 	if (e != NULL)
 		e = e->next;
 	return e;
